@@ -456,6 +456,7 @@ def parse_promoted(text):
 def parse_mir(text):
     fns = {}
     statics = {}
+    static_types = {}
     PROMOTED.clear()
     PROMOTED.update(parse_promoted(text))
     lines = text.split("\n")
@@ -528,6 +529,9 @@ def parse_mir(text):
                 key = "%s#%d" % (key, k)
             fns[key] = f
         else:
+            ms = re.match(r"^static (?:mut )?([A-Za-z_][A-Za-z0-9_:]*): \[(\w+); (\d+)\]", ln)
+            if ms:
+                static_types[ms.group(1).split("::")[-1]] = (ms.group(2), int(ms.group(3)))
             m = re.match(r"^(alloc\d+) \((?:static: ([^,]+), )?size: (\d+), align: (\d+)\) \{", ln)
             if m:
                 aid, sname, size = m.group(1), m.group(2) or m.group(1), int(m.group(3))
@@ -562,4 +566,8 @@ def parse_mir(text):
                                   "raw": bytes(data), "ptr": ptr}
                 statics[aid] = statics[sname]
         i += 1
+    for nm, (ety, cnt) in static_types.items():
+        if nm in statics:
+            statics[nm]["elem"] = ety
+            statics[nm]["count"] = cnt
     return fns, statics
